@@ -6,6 +6,6 @@ cd "$(dirname "$0")/.."
 git -C $WT checkout -q -- . ; git -C $WT clean -fdq; git -C $WT checkout -q --detach main
 tools/seedconfirm.sh $WT $SRC $PKG $DEMO $EXTRA "$@" > /var/tmp/confirm/$SID.log 2>&1
 if ! grep -q "^CONFIRMED" /var/tmp/confirm/$SID.log; then echo "$SID NOT-CONFIRMED (see /var/tmp/confirm/$SID.log)"; exit 1; fi
-tools/seedadd.py $SRC $SID $PROP "$NEEDS" "lead: tools/seedconfirm.sh in a scratch worktree at /repo's HEAD: demo passes clean, fails patched; the package's own failing-test set is unchanged by the patch; pinned dependants ($EXTRA) pass patched. Wave 2: written by a fresh sub-agent after the checks had been strengthened against wave 1, told to avoid the most obvious spot" > /dev/null
+tools/seedadd.py $SRC $SID $PROP "$NEEDS" "lead: tools/seedconfirm.sh in a scratch worktree at /repo's HEAD: demo passes clean, fails patched; the package's own failing-test set is unchanged by the patch; pinned dependants ($EXTRA) pass patched. Later wave: written by a fresh sub-agent after the checks had been strengthened against the earlier waves, told to avoid the obvious spot and anything used before" > /dev/null
 tools/seedcheck.py $SID > /var/tmp/sc4-$SID.log 2>&1
 grep -h -E "^(CAUGHT|MISSED)" /var/tmp/sc4-$SID.log | cut -c1-150
